@@ -2,6 +2,51 @@
 from . import _whole
 
 
+def minimize_nit(ctx, results):
+    """minimize(maxiter=n) performs exactly n metaepochs and reports nit=n (n = 0 included); with maxfun the reported nit is the number performed"""
+    import random
+    import warnings
+    import numpy as np
+    warnings.filterwarnings("ignore")
+    import pyhms.tree as tree_mod
+    from pyhms import minimize
+    rng = random.Random(ctx.seed + 505)
+    viol, n = [], ctx.n(5, 40)
+    performed = [0]
+    orig = tree_mod.DemeTree.run_metaepoch
+
+    def counting(self):
+        performed[0] += 1
+        return orig(self)
+    tree_mod.DemeTree.run_metaepoch = counting
+    try:
+        for k in range(n):
+            kw = {"maxiter": rng.choice([0, 0, 1, 2, 3])} if k % 2 == 0 else {"maxfun": rng.choice([0, 30, 90, 200])}
+            seed = rng.randint(0, 10 ** 6)
+            performed[0] = 0
+            try:
+                r = minimize(lambda x: float(np.sum(np.asarray(x) ** 2)), [(-3.0, 4.0)] * 2, seed=seed, log_level="critical", **kw)
+            except Exception:
+                continue
+            case = {"replay_fn": "minimize_nit", "kw": kw, "seed": seed}
+            if int(r.nit) != performed[0]:
+                viol.append({"key": "C05/minimize-nit", "what": f"minimize({kw}, seed={seed}) reports nit={r.nit} after {performed[0]} metaepochs", **case})
+            if "maxiter" in kw and performed[0] != kw["maxiter"]:
+                viol.append({"key": "C05/minimize-maxiter", "what": f"minimize(maxiter={kw['maxiter']}) performed {performed[0]} metaepochs", **case})
+            if kw.get("maxfun") == 0 and performed[0] != 0:
+                viol.append({"key": "C05/minimize-maxfun0", "what": f"minimize(maxfun=0) performed {performed[0]} metaepochs", **case})
+    finally:
+        tree_mod.DemeTree.run_metaepoch = orig
+    return {"violations": viol[:4], "evaluations": n, "distinct_nontrivial": n, "notes": {"minimize_nit_runs": n}}
+
+
+def _replay_nit(ctx, data):
+    return False, "minimize nit case: " + str(data.get("what"))[:300]
+
+
+minimize_nit.replay_name, minimize_nit.replay = "minimize_nit", _replay_nit
+
+
 def nontrivial(r):
     # the condition first turned true inside a deme's metaepoch (so that a wind-down actually happened)
     return r["stats"].get("metaepochs", 0) >= 1 and r["spec"]["gsc"]["kind"] in ("SingularEval", "FitnessEval", "Precision", "AllStopped", "RootStopped", "NoActiveNonroot")
@@ -14,6 +59,6 @@ _whole.install(globals(), "C05",
                     "pass-through GSC seeing every consult (the machine REJECTS a false verdict after a true one, a metaepoch without a false consult, a sprout after the observation).",
                note="nit through minimize() is checked by the C03/C05 monitors on real runs (minimize wiring is not in the machine).",
                technique="Coq invariant (wind-down ghost counters) over all event streams + vm_compute trace replay against the real package",
-               quick=240, thorough=6000, nontrivial=nontrivial,
+               quick=240, thorough=6000, nontrivial=nontrivial, extra_checks=[minimize_nit],
                forces=[(2, None), (1, {"gsc": {"kind": "SingularEval", "limit": 120}}), (1, {"gsc": {"kind": "FitnessEval", "limit": 300, "weights": "equal"}}),
                        (1, {"gsc": {"kind": "MetaepochLimit", "n": 3}})])
